@@ -33,6 +33,7 @@ class Replayer:
         self.evals = 0
         self.nontrivial = 0
         self.missing = []
+        self.bad = []        # (size, text, replay record): every mismatch; the smallest MAXREC are recorded as violations
         self.scratch = None
         if os.path.isdir("/dev/shm") and os.access("/dev/shm", os.W_OK):
             # image loading creates and removes ~10 directories/files per case: on tmpfs it is 2-3x faster
@@ -64,7 +65,7 @@ class Replayer:
             exp = expect_of(c)
             rec = {"case": c, "mode": mode, "layout": layout, "observed": o, "from": label}
             if "panic" in o:
-                ck.violation("ScanContainer panicked on a legal image (%s): %s" % (label, o["panic"][:300]), rec)
+                self.bad.append((0, "ScanContainer panicked on a legal image (%s): %s" % (label, o["panic"][:300]), rec))
                 continue
             if "error" in o:
                 raise vf.NotAVerdict("harness could not build/scan case %s: %s" % (json.dumps(c)[:400], o["error"]))
@@ -82,10 +83,24 @@ class Replayer:
                                % (k, json.dumps(got[k], sort_keys=True), json.dumps(exp[k], sort_keys=True), "/".join(diff)))
             miss = [k for k in exp if k not in got]
             if bad:
-                ck.violation("wrong layer attribution [%s, history=%s, %s/%s]: %s; layers=%s"
-                             % (label, c["history"], mode, layout, "; ".join(bad), json.dumps(c["layers"])), rec)
+                self.bad.append((len(c["layers"]) * 100 + len(json.dumps(c["layers"])) // 10,
+                                 "wrong layer attribution [%s, history=%s, %s/%s]: %s; history: %s"
+                                 % (label, c["history"], mode, layout, "; ".join(bad), describe(c)), rec))
             elif miss:
                 self.missing.append((label, c, miss))
+
+
+MAXREC = 25
+
+
+def flush(ck, rp):
+    """Registers the smallest witnesses as violations (one replay file each); the total is kept in the evidence."""
+    rp.bad.sort(key=lambda t: (t[0], t[1]))
+    for k, (_, text, rec) in enumerate(rp.bad[:MAXREC]):
+        if k == 0 and len(rp.bad) > 1:
+            text += " [smallest of %d mismatching scans]" % len(rp.bad)
+        ck.violation(text, rec)
+    ck.cov["mismatching_scans"] = len(rp.bad)
 
 
 def describe(c):
@@ -166,6 +181,7 @@ def body(a, ck, rp):
         cases = [rec["case"]]
         obs = rp.run(cases, mode=rec.get("mode", "pkglist"), layout=rec.get("layout", "flat"))
         rp.judge(cases, obs, "replay", rec.get("mode", "pkglist"), rec.get("layout", "flat"))
+        flush(ck, rp)
         vf.log("[replay] observed %s expected %s" % (json.dumps(obs[0].get("obs"), sort_keys=True), json.dumps(expect_of(cases[0]), sort_keys=True)))
         ck.count(rp.evals)
         ck.cov["traces_validated_against_impl"] = rp.images
@@ -211,7 +227,7 @@ def body(a, ck, rp):
         for c in cases[:: max(1, len(cases) // 2)][:2]:
             if c.get("nontrivial"):
                 ck.sample({"case": c, "history": describe(c)})
-        vf.log("[replay] %s: %d of %d cases scanned, %d violations so far" % (cfg, len(cases), len(r.cases), len(ck.violations)))
+        vf.log("[replay] %s: %d of %d cases scanned, %d mismatches so far" % (cfg, len(cases), len(r.cases), len(rp.bad)))
 
     # 3. seeded random long histories (TLC simulation of the same spec, all invariants evaluated on every state):
     #    dense (every layer may rewrite every file) and sparse (a layer touches at most one file)
@@ -247,6 +263,7 @@ def body(a, ck, rp):
     # 5. extension (flagged separately, never a C05 verdict)
     next_ = extension(ck, rp)
 
+    flush(ck, rp)
     if rp.missing and not ck.violations:
         lab, c, miss = rp.missing[0]
         raise vf.NotAVerdict("%d scans did not report packages of the final view (binding problem, not C05): e.g. %s misses %s in %s"
